@@ -16,8 +16,8 @@ from . import enginegen as G
 from . import enginerun as R
 from .pymini import Unsupported
 
-MARK = re.compile(r"\[(Start|P\d+[a-z]*|J\d+)\]")
-HOOKMARK = re.compile(r"\[(H\d+) ran")
+MARK = re.compile(r"\[(Start|P\d+[a-z.]*|J\d+)\]")
+HOOKMARK = re.compile(r"\[(H\d+(?:\.e)?) ran")
 
 
 def strip_flags(v):
@@ -525,6 +525,63 @@ def hook_commands_preserved(src, story, report):
                    f"passage runs {got} (missing {lost})", 0)
 
 
+def navigation_lines_preserved(src, story, report):
+    """Source-level oracle for the navigation commands, independent of the engine and of the model: every jump line
+    (`-> T(args)`, at any indentation, top level or inside @if/@for/join blocks) and every choice line (`+`/`*`, with or
+    without its own {condition}) of a generated passage must be a jump token / a choice of the compiled passage with
+    that target and argument text (jumps: content at any depth; choices: the passage's list, a branch's or a loop's
+    list).  A line that the compiler turns into text is a command that never runs / a choice that is never offered."""
+    def walk(ts, jumps, choices):
+        for t in ts or []:
+            if not isinstance(t, dict):
+                continue
+            if t.get("type") == "jump":
+                jumps.append((t.get("target"), (t.get("args") or "").strip()))
+            for c in t.get("choices", []) or []:
+                choices.append((c.get("target"), (c.get("args") or "").strip(), bool(c.get("condition")), bool(c.get("sticky"))))
+            for key in ("content", "truthy", "falsy"):
+                if isinstance(t.get(key), list):
+                    walk(t[key], jumps, choices)
+            for br in t.get("branches", []) or []:
+                walk(br.get("content", []), jumps, choices)
+                for c in br.get("choices", []) or []:
+                    choices.append((c.get("target"), (c.get("args") or "").strip(), bool(c.get("condition")), bool(c.get("sticky"))))
+
+    def split_call(x):
+        x = x.strip()
+        if "(" in x and x.endswith(")"):
+            return x[:x.index("(")].strip(), x[x.index("(") + 1:-1].strip()
+        return x, ""
+    cur, want_j, want_c = None, {}, {}
+    for line in src.split("\n"):
+        st = line.strip()
+        if st.startswith("::"):
+            cur = st[2:].strip().split("(")[0].strip()
+            want_j[cur], want_c[cur] = [], []
+        elif cur and st.startswith("-> "):
+            want_j[cur].append(split_call(st[3:]))
+        elif cur and re.match(r"^[+*] (\{.*\} )?\[", st) and "] -> " in st:
+            tg, ar = split_call(st[st.rindex("] -> ") + 5:])
+            want_c[cur].append((tg, ar, st[2] == "{", st[0] == "+"))
+    for name in want_j:
+        p = story["passages"].get(name)
+        if p is None:
+            continue
+        jumps, choices = [], []
+        walk(p.get("content"), jumps, choices)
+        for c in p.get("choices", []) or []:
+            choices.append((c.get("target"), (c.get("args") or "").strip(), bool(c.get("condition")), bool(c.get("sticky"))))
+            walk(c.get("block_content"), jumps, choices)
+        if sorted(jumps) != sorted(want_j[name]):
+            lost = [x for x in want_j[name] if x not in jumps] or want_j[name]
+            report("jump-line-lost-by-compiler", f"passage {name}: the source has the jump lines {want_j[name]}, the compiled "
+                   f"passage has the jump tokens {jumps} (missing {lost})", 0)
+        if sorted(choices) != sorted(want_c[name]):
+            lost = [x for x in want_c[name] if x not in choices] or want_c[name]
+            report("choice-line-lost-by-compiler", f"passage {name}: the source has the choice lines (target, args, conditional, "
+                   f"sticky) {want_c[name]}, the compiled passage has {choices} (missing {lost})", 0)
+
+
 def gen_ops_for(pid, rng, n):
     ops = []
     for _ in range(n):
@@ -833,7 +890,22 @@ def call_shape_phase(chk, rng, n):
         sig = ", ".join(nm if i < nreq else f"{nm}={rng.choice(['0', '1', 'p + 1' if i > 0 else '2'])}" for i, nm in enumerate(names))
         npos = rng.randint(0, k + 1)
         kws = [nm for nm in names + ["zz"] if rng.random() < 0.35]
-        args = ", ".join([str(rng.randint(0, 9)) for _ in range(npos)] + [f"{nm}={rng.randint(0, 9)}" for nm in kws])
+        def argval():
+            # mostly small integers; also values that are None (a supplied argument all the same), nested calls and string
+            # literals holding parentheses / commas / equals signs (the call is split by parenthesis scans on both sides)
+            if rng.random() < 0.75:
+                return str(rng.randint(0, 9))
+            return rng.choice(["None", "nothing", "max(1, 2)", "(3)", "[1, 2]", "'a, b'", "'k=v'", "'f(x)'", "'hi :)'",
+                               '"(unclosed"', "'x)'", "{'k': (1, 2)}['k'][0]"])
+        vals_special = False
+        pos_vals = [argval() for _ in range(npos)]
+        kw_vals = [argval() for _ in kws]
+        vals_special = any(not v.isdigit() for v in pos_vals + kw_vals)
+        # a string literal with an unbalanced parenthesis: both sides split the call with quote-unaware parenthesis scans,
+        # so the compiler may refuse such a call (a restriction of the language, not a binding failure) - but if it
+        # compiles, it must bind like every other call
+        unbalanced = any(v in ('"(unclosed"', "'x)'", "'hi :)'") for v in pos_vals + kw_vals)
+        args = ", ".join(pos_vals + [f"{nm}={v}" for nm, v in zip(kws, kw_vals)])
         site = rng.choice(["choice", "jump", "choice-in-if", "jump-in-if", "choice-in-for", "jump-in-for"])
         call = f"T({args})"
         body = {"choice": f"+ [Go] -> {call}", "jump": f"-> {call}",
@@ -841,11 +913,14 @@ def call_shape_phase(chk, rng, n):
                 "jump-in-if": f"@if True:\n    Text\n    -> {call}\n@endif",
                 "choice-in-for": f"@for i in [1]:\n    + [Go] -> {call}\n@endfor",
                 "jump-in-for": f"@for i in [1]:\n    -> {call}\n@endfor"}[site]
+        shown = "|".join("{" + nm + "}" for nm in names)
         if site.startswith("jump"):
-            src = f":: Start\n+ [In] -> Mid\n\n:: Mid\nMid text\n{body}\n\n:: T({sig})\nT text {{{names[0]}}}\n+ [Back] -> Start\n"
+            src = (f":: Start\n~ nothing = None\n+ [In] -> Mid\n\n:: Mid\nMid text\n{body}\n\n:: T({sig})\nT text {{{names[0]}}}\n"
+                   f"BOUND {shown}\n+ [Back] -> Start\n")
             ops = [("choose", 0)]
         else:
-            src = f":: Start\nStart text\n{body}\n\n:: T({sig})\nT text {{{names[0]}}}\n+ [Back] -> Start\n"
+            src = (f":: Start\n~ nothing = None\nStart text\n{body}\n\n:: T({sig})\nT text {{{names[0]}}}\nBOUND {shown}\n"
+                   f"+ [Back] -> Start\n")
             ops = [("choose", 0)]
         stats["sites"][site] = stats["sites"].get(site, 0) + 1
         # Python's own call rule for this signature and this call shape (independent of the compiler's validator)
@@ -863,7 +938,7 @@ def call_shape_phase(chk, rng, n):
         except (SyntaxError, ValueError):
             stats["rejected"] += 1
             chk.count(("shape", sig, args, site), False)
-            if reason is None:
+            if reason is None and not unbalanced:
                 chk.report(f"valid-call-rejected-by-compiler:site={site}",
                            f"'{call}' is a valid Python call of T({sig}) but the story does not compile",
                            {"story_source": src, "signature": sig, "args": args})
@@ -883,6 +958,20 @@ def call_shape_phase(chk, rng, n):
                        {"story_source": src, "ops": ops, "signature": sig, "args": args})
         else:
             stats["ran_ok"] += 1
+            # ... and binds as Python binds: the values the passage sees are those of `def T(sig)` called with these arguments
+            ns = {"nothing": None}
+            try:
+                exec(f"def T({sig}): return [{', '.join(names)}]", ns)
+                want = "BOUND " + "|".join(str(x) for x in eval(f"T({args})", ns))
+            except Exception:  # noqa
+                want = None
+            got = [l for l in ((last["view"] or {}).get("raw_content") or "").split("\n") if l.startswith("BOUND ")]
+            if want is not None and last["obs"][0] == "ok" and got[:1] != [want]:
+                chk.report(f"call-binds-differently-from-python:site={site}",
+                           f"'{call}' against T({sig}): the passage sees {got[:1]}, Python binds {want!r}",
+                           {"story_source": src, "ops": ops, "signature": sig, "args": args})
+            if vals_special:
+                stats["special_values"] = stats.get("special_values", 0) + 1
     # the initial passage is entered without arguments: every way of designating it x every signature
     stats["initial"] = {"rejected": 0, "started": 0}
     for _ in range(max(12, n // 8)):
@@ -1069,6 +1158,8 @@ def run_engine_property(pid: str, tier: str, seed: int, design_note: str) -> int
             o(story, recs, report)
         if pid in ("C09", "C10"):
             hook_commands_preserved(src, story, report)
+        if pid in ("C02", "C03", "C08", "C10"):
+            navigation_lines_preserved(src, story, report)
         if pid == "C04" and nops >= 60 and all(x["view"] for x in recs):
             undos = [x for x in recs if x["op"][0] == "undo"]
             ok_undos = sum(1 for x in undos if x["obs"] == ("bool", True))
